@@ -31,6 +31,7 @@ def handleDS (st : St) (n : Nat) (toks : List String) : Result := Id.run do
   let ansOf (k : String) : Dist.DistAns :=
     if k == "200" || k == "redir307" then .status 200
     else if k == "201" then .status 201 else if k == "404" then .status 404 else if k == "500" then .status 500
+    else if k == "503then200" then .status 503 else if k == "502then200" then .status 502
     else if k == "redir302" then .methodChanged else .transportErr
   let run (dflt : Bool) : List (Option Dist.Put) × Nat :=
     let witV := mkVerifier st.vtab dflt wname wvhash wvid
@@ -97,8 +98,10 @@ def handleDS (st : St) (n : Nat) (toks : List String) : Result := Id.run do
           if id != Cp.logID origin then
             let r := fail st n "C12" s!"log {i}: configured ID is not the ID of its origin"
             st := r.st; outs := outs ++ r.out
-          if ip != s!"{hx expPath}:PUT:{sha8 raw}" then
-            let r := fail st n "C15" s!"log {i}: the PUT does not carry exactly the witness's bytes to the path naming the log ID and the witness name"
+          -- every request that reached the path (a client may have sent more than one) carries exactly these bytes
+          let reqs := ((ip.drop ((hx expPath).length + 1)).toString).splitOn "+"
+          if !ip.startsWith (hx expPath ++ ":") || reqs.any (fun r => r != s!"PUT:{sha8 raw}") then
+            let r := fail st n "C15" s!"log {i}: a request that is not a PUT of exactly the witness's bytes was sent to the path naming the log ID and the witness name ({reqs.length} request(s) seen)"
             st := r.st; outs := outs ++ r.out
           if d == "redir307" && iredirs[i]? != some s!"PUT:{sha8 raw}" then
             let r := fail st n "C15" s!"log {i}: after a 307 redirect the target did not receive the raw witness bytes by PUT"
